@@ -357,6 +357,74 @@ func sameShape(src, dst *Node, at string) (string, string) {
 	return "", ""
 }
 
+// covers: every entry of src is present in dst with the same kind, equal contents, equal symlink target (dst may hold
+// more).  It returns a defect class and the first difference, or "".
+func covers(src, dst *Node, at string) (string, string) {
+	if dst == nil {
+		return "merge-entry-missing", at + ": " + src.K + " of the source is missing in the destination after a successful call"
+	}
+	if src.K != dst.K {
+		return "merge-kind-differs", fmt.Sprintf("%s: the source has a %s, the destination a %s after a successful call", at, src.K, dst.K)
+	}
+	switch src.K {
+	case "file":
+		if !bytes.Equal(src.C, dst.C) {
+			return "merge-content-differs", fmt.Sprintf("%s: content %q of the source is %q in the destination", at, src.C, dst.C)
+		}
+	case "link":
+		if src.T != dst.T {
+			return "merge-symlink-target-differs", fmt.Sprintf("%s: target %q became %q", at, src.T, dst.T)
+		}
+	case "dir":
+		for _, e := range src.Es {
+			if c, w := covers(e.N, find(dst.Es, e.Name), at+"/"+e.Name); c != "" {
+				return c, w
+			}
+		}
+	}
+	return "", ""
+}
+
+// lookup: the node of the tree at a relative path ("" = the root), nil if there is none
+func lookup(n *Node, rel string) *Node {
+	if rel == "" {
+		return n
+	}
+	for _, part := range strings.Split(rel, "/") {
+		if n == nil || n.K != "dir" {
+			return nil
+		}
+		n = find(n.Es, part)
+	}
+	return n
+}
+
+func sharesInode(a, b *Node) bool {
+	inos := map[int]bool{}
+	var collect func(n *Node)
+	collect = func(n *Node) {
+		if n.K == "file" && n.Ino != 0 {
+			inos[n.Ino] = true
+		}
+		for _, e := range n.Es {
+			collect(e.N)
+		}
+	}
+	collect(a)
+	found := false
+	var look func(n *Node)
+	look = func(n *Node) {
+		if n.K == "file" && inos[n.Ino] {
+			found = true
+		}
+		for _, e := range n.Es {
+			look(e.N)
+		}
+	}
+	look(b)
+	return found
+}
+
 // ------------------------------------------------------------------------------------------- one case
 
 type runner struct {
@@ -398,6 +466,8 @@ func (r *runner) run(in *CaseIn, stream string) {
 			snapshot(d.pathOf(in, e.Name), e.Name, before)
 		}
 	}
+	beforeDst := map[string]meta{}
+	snapshot(to, "", beforeDst)
 
 	// ---- the implementation
 	var err error
@@ -438,6 +508,8 @@ func (r *runner) run(in *CaseIn, stream string) {
 		}
 	}
 	dst := find(after, in.B)
+	afterDst := map[string]meta{}
+	snapshot(to, "", afterDst)
 
 	// ---- model side
 	obs := "ObsErr"
@@ -470,8 +542,32 @@ func (r *runner) run(in *CaseIn, stream string) {
 	}
 	placeable := !in.Link || !in.XDev || in.Fallback
 	switch {
-	case src == nil || !fresh:
-		// merging into an existing destination is outside the property's text; only "never modifies the source" applies
+	case src == nil:
+	case !fresh:
+		// A destination that exists already (C34_existing / C34_hardlinked).  Whether the call succeeds is part of the
+		// characterisation (model side); the property judges a SUCCESSFUL call: every entry of the source must be there
+		// with equal contents, and what the destination held at paths the source does not have must be exactly as it was
+		// (same inode, mode, contents, modification time).  "never modifies the source" is judged above for every case.
+		old := find(in.World, in.B)
+		c.Hist("existing_destination", map[bool]string{true: "ok", false: "error"}[err == nil])
+		c.Hist("destination_shares_inodes_with_source", lib.Bool(sharesInode(src, old)))
+		if err == nil && !(src.K == "link" && !in.Link) {
+			if class, what := covers(src, dst, in.B); class != "" {
+				fail(class, what)
+			}
+			stale, staleAfter := map[string]meta{}, map[string]meta{}
+			for k, v := range beforeDst {
+				if lookup(src, strings.TrimPrefix(k, "/")) == nil {
+					stale[k] = v
+					if w, ok := afterDst[k]; ok {
+						staleAfter[k] = w
+					}
+				}
+			}
+			if diff := diffSnap(stale, staleAfter); diff != "" {
+				fail("stale-entry-changed", "an entry of the destination at a path the source does not have was changed: "+in.B+diff)
+			}
+		}
 	case src.K == "link" && !in.Link:
 		// a top-level symlink that is COPIED is opened, i.e. followed (the one case the code treats differently)
 		c.Hist("top_level_symlink_copied", map[bool]string{true: "resolves", false: "does-not-resolve"}[followErr == nil])
@@ -787,7 +883,7 @@ func main() {
 			"run through RecursiveCopy(0555), RecursiveLink, link-without-fallback and RecursiveLink across devices; every kind of top-level symlink "+
 			"(to a file, a directory, a symlink, itself, nothing) x 5 configurations; random larger trees (odd names, binary contents, many modes, absolute and "+
 			"escaping symlink targets, hard links inside the source) x random configurations; destinations that already exist (stale files, directories in the way, "+
-			"an earlier hard-linked copy). distinct = distinct (world, configuration); non-trivial = source with >= 2 nodes or a symlink root", maxNodes))
+			"an earlier hard-linked copy); the call repeated over an earlier copy / hard-linked copy of the same tree x RecursiveLink, RecursiveCopy, link-without-fallback. distinct = distinct (world, configuration); non-trivial = source with >= 2 nodes or a symlink root", maxNodes))
 
 		std := []config{
 			{"RecursiveCopy", 0o555, false, false, false},
@@ -854,6 +950,41 @@ func main() {
 			err := fs.RecursiveCopy(filepath.Join(d, "src")+"/", filepath.Join(d, "dst"), 0o644)
 			c.Note("observation (not part of C34): RecursiveCopy with a trailing slash on `from` returned %v", err)
 		}()
+
+		// --- observation: a destination that holds a symlink to a directory OF THE SOURCE (outside the model: Unsupported)
+		func() {
+			d := filepath.Join(base, "probe2")
+			must(os.MkdirAll(filepath.Join(d, "src", "sub"), 0o755))
+			f := filepath.Join(d, "src", "sub", "file")
+			must(os.WriteFile(f, []byte("x"), 0o644))
+			must(os.Mkdir(filepath.Join(d, "dst"), 0o755))
+			must(os.Symlink("../src/sub", filepath.Join(d, "dst", "sub")))
+			defer os.RemoveAll(d)
+			st0, _ := os.Lstat(f)
+			err := fs.RecursiveCopy(filepath.Join(d, "src"), filepath.Join(d, "dst"), 0o444)
+			st1, _ := os.Lstat(f)
+			if st1 != nil && st0 != nil && (keyOf(st0) != keyOf(st1) || st0.Mode() != st1.Mode()) {
+				c.Note("observation (outside the model, no caller known to set it up): RecursiveCopy into an existing destination whose entry `sub` is a symlink to the source's own directory `sub` returned %v and REPLACED the source file (inode changed: %v, mode %v -> %v): the temporary file is created and renamed through the symlink", err, keyOf(st0) != keyOf(st1), st0.Mode(), st1.Mode())
+			} else {
+				c.Note("observation (outside the model): RecursiveCopy into a destination holding a symlink to a source directory returned %v and left the source file as it was", err)
+			}
+		}()
+
+		// --- 5. the call repeated: the destination is an earlier copy / an earlier hard-linked copy of the same tree
+		nre := c.Scale(40, 500)
+		for i := 0; i < nre; i++ {
+			g := c.Rng.Fork()
+			budget := g.Range(2, 10)
+			files := []*Node{}
+			t := randTree(g, &budget, 0, &files)
+			if t.K == "link" {
+				t.T = "tfile"
+			}
+			earlier := copyOf(t, i%2 == 0) // even: what RecursiveLink left (the source's inodes); odd: what RecursiveCopy left
+			for _, k := range []config{{"RecursiveLink", 0, true, true, false}, {"RecursiveCopy", lib.Pick(g, modePool), false, false, false}, {"", 0o644, true, false, false}} {
+				r.cases(t, []*Entry{{"dst", earlier.clone()}}, []config{k}, "repeated-call")
+			}
+		}
 
 		// --- 4. destinations that already exist
 		nadv := c.Scale(120, 1500)
